@@ -142,6 +142,29 @@ def eval_case(case):
             save_doc(d, p)
             fails += check_package(p, psrc, f"document with lagging object counter ({os.path.basename(path)})")
             npk += 1
+        elif kind == "resize":
+            # the same open document saved, resized across a tile boundary, and saved again
+            _, nr, nc, axis, delta = case
+            d = shape_doc(nr, nc)
+            p = _tmp("rz1")
+            tmp.append(p)
+            save_doc(d, p)
+            t = d.sheets[0].tables[0]
+            if delta < 0:
+                (t.delete_row if axis == "row" else t.delete_column)(-delta)
+            else:
+                (t.add_row if axis == "row" else t.add_column)(delta)
+            t.write(0, 0, "resized")
+            p2 = _tmp("rz2")
+            tmp.append(p2)
+            save_doc(d, p2)
+            fails += check_package(p2, TEMPLATE, f"{nr}x{nc} saved, {axis} {delta:+d}, saved again")
+            npk += 1
+            d2, _ = open_doc(p2)
+            t2 = d2.sheets[0].tables[0]
+            want = (nr + delta, nc) if axis == "row" else (nr, nc + delta)
+            if (t2.num_rows, t2.num_cols) != want:
+                fails.append(({"mechanism": "reopen", "class": "resize-dims"}, f"{case}: reopened as {t2.num_rows}x{t2.num_cols}, expected {want}"))
         elif kind == "shape":
             _, nr, nc = case
             d = shape_doc(nr, nc)
@@ -240,6 +263,9 @@ def cases(tier):
         cs.append(["gen", name])
     for p in [TEMPLATE] + [os.path.join(FIXTURES, f) for f in ("test-1.numbers", "issue-3.numbers", "test-save-1.numbers", "issue-77.numbers")]:
         cs.append(["lagging", p])
+    for nr, nc, axis, delta in [(300, 2, "row", -100), (257, 2, "row", -1), (257, 2, "row", -2), (256, 2, "row", 1), (255, 2, "row", 2), (513, 2, "row", -300),
+                                (2, 300, "col", -100), (2, 257, "col", -2), (2, 255, "col", 2)]:
+        cs.append(["resize", nr, nc, axis, delta])
     rows = [1, 255, 256, 257, 512, 513]
     cols = [1, 256, 257, 1000]
     for nr in rows:
